@@ -493,6 +493,74 @@ func lastOf(p netip.Prefix) netip.Addr {
 	return a
 }
 
+// runElements: every raw entry string up to a length over an alphabet of quoting, bracket, colon,
+// digit and space characters, as the value of a Forwarded "for" parameter (two element shapes) and as
+// an X-Forwarded-For entry, alone, left and right of a valid entry, x every resolver.
+func runElements(c *mc.Ctx, r *mc.Result) {
+	alpha := "\"1:[] ;="
+	maxLen := 5
+	if c.Quick() {
+		maxLen = 4
+	}
+	rds := resolvers()
+	r.Bounds["elements"] = fmt.Sprintf("all entry strings of length<=%d over %q, as for=V, by=..;for=V;proto=.. and as X-Forwarded-For entry; alone, before and after a valid entry; x %d resolvers", maxLen, alpha, len(rds))
+	type built struct{ x, f fox.ClientIPResolver }
+	bs := make([]built, len(rds))
+	for i, rd := range rds {
+		x, err1 := rd.mk(clientip.XForwardedForKey)
+		f, err2 := rd.mk(clientip.ForwardedKey)
+		if err1 != nil || err2 != nil {
+			r.Errors = append(r.Errors, fmt.Sprintf("cannot build %s: %v %v", rd.name, err1, err2))
+			return
+		}
+		bs[i] = built{x, f}
+	}
+	idx := 0
+	var rec func(cur string)
+	visit := func(v string) {
+		type hv struct {
+			forwarded bool
+			line      string
+		}
+		var hs []hv
+		for _, el := range []string{"for=" + v, "by=203.0.113.9;for=" + v + ";proto=https"} {
+			hs = append(hs, hv{true, el}, hv{true, el + ", for=8.8.4.4"}, hv{true, "for=8.8.4.4, " + el})
+		}
+		hs = append(hs, hv{false, v}, hv{false, v + ", 8.8.4.4"}, hv{false, "8.8.4.4, " + v})
+		for _, h := range hs {
+			for i, rd := range rds {
+				res := bs[i].x
+				if h.forwarded {
+					res = bs[i].f
+				}
+				ls := []string{h.line}
+				class, msg := evalLists(rd, res, h.forwarded, ls)
+				r.Evaluations++
+				r.DistinctNontrivial++
+				if class != "" {
+					r.Violate("elements", class, msg, Case{Resolver: rd.name, Forwarded: h.forwarded, Lines: ls})
+				}
+			}
+		}
+	}
+	rec = func(cur string) {
+		idx++
+		if c.Mine(idx) {
+			visit(cur)
+		}
+		if len(cur) == maxLen {
+			return
+		}
+		for _, ch := range alpha {
+			if ch == ',' {
+				continue
+			}
+			rec(cur + string(ch))
+		}
+	}
+	rec("")
+}
+
 func replayLists(c *mc.Ctx, raw json.RawMessage) string {
 	var cs Case
 	if err := json.Unmarshal(raw, &cs); err != nil {
@@ -542,7 +610,7 @@ func init() {
 	mc.Register(&mc.Check{
 		ID:    "C18",
 		Level: "exploration",
-		Rule: "every header list up to a number of entries over a 16-token alphabet (valid/invalid/private/public IPv4 and IPv6, ports, brackets, zones, mapped addresses, junk, empty), as X-Forwarded-For and as Forwarded, over one or two header lines, x every resolver configuration (counts, limits, all subsets of the range options, custom and failing trusted ranges), compared with reference strategies; every selecting list re-run behind every attacker prefix; default-range audit exhaustive by elementary intervals; " +
+		Rule: "every header list up to a number of entries over a 16-token alphabet (valid/invalid/private/public IPv4 and IPv6, ports, brackets, zones, mapped addresses, junk, empty), as X-Forwarded-For and as Forwarded, over one or two header lines, plus every raw entry string up to a length over a quoting/bracket/colon alphabet (part elements), x every resolver configuration (counts, limits, all subsets of the range options, custom and failing trusted ranges), compared with reference strategies; every selecting list re-run behind every attacker prefix; default-range audit exhaustive by elementary intervals; " +
 			"non-trivial = lists of >=2 entries; every elementary interval",
 		Assumptions: []string{
 			"reference strategies over net/netip on the flattened entry list; reference entry syntax: address, address:port, [v6], [v6]:port, zone allowed, unspecified = invalid",
@@ -551,6 +619,7 @@ func init() {
 		},
 		Parts: []mc.Part{
 			{Name: "lists", Run: runLists, Replay: replayLists},
+			{Name: "elements", Run: runElements, Replay: replayLists},
 			{Name: "others", Run: runOthers, Replay: replayLists},
 			{Name: "ranges", Run: runRanges, Replay: func(c *mc.Ctx, raw json.RawMessage) string {
 				r := mc.NewResult()
